@@ -27,12 +27,15 @@ pub trait Prop: Sync {
 }
 
 pub mod c01;
+pub mod c15;
 pub mod c19;
+pub mod shapes;
 pub mod common;
 
 pub fn lookup(id: &str) -> Option<&'static dyn Prop> {
     match id {
         "C01" => Some(&c01::C01),
+        "C15" => Some(&c15::C15),
         "C19" => Some(&c19::C19),
         _ => None,
     }
